@@ -121,6 +121,13 @@ func c02Case(w *rt.W, n uint64, set int) {
 	judge("DefaultParser[[]byte]", g, err, false)
 	judge("Valid[string]", 0, roman.Valid(want, 0), true)
 	judge("Valid[[]byte]", 0, roman.Valid(out, 0), true)
+	if n != 0 { // a non-empty numeral is no concern of the rule that forbids the empty one
+		g, err = roman.DefaultParser(want, roman.RuleDisableEmptyAsZero)
+		judge("DefaultParser[string](RuleDisableEmptyAsZero)", g, err, false)
+		g, err = roman.DefaultParser(out, roman.RuleDisableEmptyAsZero)
+		judge("DefaultParser[[]byte](RuleDisableEmptyAsZero)", g, err, false)
+		judge("Valid[string](RuleDisableEmptyAsZero)", 0, roman.Valid(want, roman.RuleDisableEmptyAsZero), true)
+	}
 	// named types that print themselves differently from what they contain
 	g, err = roman.DefaultParser(loudS(want), 0)
 	judge("DefaultParser[string type with String()]", g, err, false)
@@ -291,6 +298,16 @@ func init() {
 }
 
 func runC02(c *rt.Ctx) {
+	soloRun(c, "roman")
+	retainedAcrossCollections(c, "Number.MarshalText / DefaultFormatter(nil)", 256, func(i int) ([]byte, string) {
+		n := uint64(1 + i*37%4999)
+		if i%2 == 0 {
+			b, _ := roman.Number(n).MarshalText()
+			return b, ref.RomanFormat(n, refRomanFlags(roman.DefaultFormat))
+		}
+		b, _ := roman.DefaultFormatter(nil, roman.Number(n), roman.FormatLowerCase)
+		return b, ref.RomanFormat(n, refRomanFlags(roman.FormatLowerCase))
+	})
 	appenderSweep(c, func() []any {
 		var out []any
 		for _, v := range []roman.Number{roman.Number(0), roman.Number(1), roman.Number(4), roman.Number(1994), roman.Number(3999), roman.Number(4000), roman.Number(123456)} {
